@@ -54,15 +54,17 @@ static void init_cfgs() {
     add_cfg(prov, "ec_p256", "ES256", JWT_ALG_NONE, 0, -1, 4, true);
     add_cfg(prov, "ed25519", nullptr, JWT_ALG_EDDSA, -1, -1, 7, false);
   }
+  for (int prov = 0; prov < 2; prov++) { add_cfg(prov, nullptr, nullptr, JWT_ALG_NONE, 60, 60, 0, false); add_cfg(prov, "oct64", "HS256", JWT_ALG_NONE, 2147483647, 2147483647, 1, true); }   // positive leeways
 }
 static jwt_alg_t cfg_alg(const Cfg &c) { return c.expl != JWT_ALG_NONE ? c.expl : c.attr.empty() ? JWT_ALG_NONE : jwt_str_alg(c.attr.c_str()); }
 
 // runs one verify under configuration ci and checks the C06 oracle; returns verdict
+static bool G_POLLUTE = false;   // bit 13: OpenSSL's error queue is not empty when the library is called
 static bool G_DIRTY = false;   // bit 14 of the selector: the checker is REUSED - it has already rejected another token (and was not cleared)
 static int verify_with_oracle_inner(size_t ci, const std::string &token);
 static int verify_with_oracle(size_t ci, const std::string &token) {
   // reset global state: allocator (bit 15 of the selector: the application has installed its own allocator)
-  bool guard = (ci >> 15) & 1; G_DIRTY = (ci >> 14) & 1; ci &= 0x3fff;
+  bool guard = (ci >> 15) & 1; G_DIRTY = (ci >> 14) & 1; G_POLLUTE = (ci >> 13) & 1; ci &= 0x1fff;
   jwt_set_alloc(NULL, NULL);
   if (guard) { guard_foreign_frees() = 0; jwt_set_alloc(guard_malloc, guard_free); fs().cls("with-application-allocator"); }
   int r = verify_with_oracle_inner(ci, token);
@@ -73,7 +75,7 @@ static int verify_with_oracle_inner(size_t ci, const std::string &token) {
   FStats &st = fs();
   const Cfg &c = *CFGS[ci % CFGS.size()];
   // reset global state: provider, clock
-  set_provider(c.prov);
+  set_provider(c.prov, G_POLLUTE); if (G_POLLUTE) fs().cls("openssl-error-queue-not-empty");
   set_now(1700000000);
   jwt_checker_t *ch = jwt_checker_new();
   if (c.k) jwt_checker_setkey(ch, c.expl, c.lk->item);
@@ -132,9 +134,11 @@ static void emit_corpus(int mode) {
   const char *pays[] = {"{\"sub\":\"a\",\"iss\":\"issuer\",\"exp\":1800000000,\"nbf\":1600000000}", "{\"exp\":1,\"iss\":\"other\"}", "{\"nbf\":1900000000,\"a\":[1,{\"b\":null}],\"exp\":\"x\"}", "[1,2]",
     // claims of every JSON type (registered claims are typed: RFC 7519 allows aud to be an array)
     "{\"iss\":\"issuer\",\"sub\":\"subject\",\"aud\":\"audience\",\"exp\":1800000000}", "{\"iss\":1,\"sub\":null,\"aud\":[\"audience\",\"b\"],\"exp\":1.8e9,\"nbf\":true}",
-    "{\"aud\":{\"x\":1},\"iss\":[],\"sub\":false,\"exp\":null,\"nbf\":[1]}", "{\"iss\":1.5,\"sub\":\"\",\"aud\":0,\"nbf\":\"1\",\"exp\":{}}"};
-  for (size_t i = 0; i < CFGS.size(); i++) for (int pi = 0; pi < 8; pi++) {
-    if (pi >= 4 && !CFGS[i]->claims) continue;
+    "{\"aud\":{\"x\":1},\"iss\":[],\"sub\":false,\"exp\":null,\"nbf\":[1]}", "{\"iss\":1.5,\"sub\":\"\",\"aud\":0,\"nbf\":\"1\",\"exp\":{}}",
+    // time claims at the ends of the integer range (any arithmetic the checker does with them and its leeway must not overflow)
+    "{\"iss\":\"issuer\",\"exp\":9223372036854775807,\"nbf\":-9223372036854775808}", "{\"exp\":9223372036854775800,\"nbf\":-9223372036854775800,\"iat\":-1}"};
+  for (size_t i = 0; i < CFGS.size(); i++) for (int pi = 0; pi < 10; pi++) {
+    if (pi >= 4 && pi < 8 && !CFGS[i]->claims) continue;
     const Cfg &c = *CFGS[i]; jwt_alg_t a = c.k ? cfg_alg(c) : JWT_ALG_NONE;
     std::string h = std::string("{\"alg\":\"") + (a == JWT_ALG_NONE ? "none" : jwt_alg_str(a)) + "\",\"typ\":\"JWT\"}";
     std::string body;
